@@ -112,6 +112,28 @@ def vivSignAt (mul : Bool) (x y e : Val) : Option Int :=
     Eval.exactSign (MPoly.normalize none (lhs ++ [([(2, 1)], -1)])) [(0, a), (1, b), (2, c)]
   | _, _, _ => none
 
+/-- exact sign of `x^n − e` (x0 := x, x2 := e) -/
+def vivSignPow (n : Nat) (x e : Val) : Option Int :=
+  match x.toZ?, e.toZ? with
+  | some a, some c =>
+    let lhs : MPoly := if n = 0 then [([], 1)] else [([(0, n)], 1)]
+    Eval.exactSign (MPoly.normalize none (lhs ++ [([(2, 1)], -1)])) [(0, a), (2, c)]
+  | _, _ => none
+
+/-- exact membership of `x^n` in `R` -/
+def vivMemPow (n : Nat) (x : Val) (R : VIv) : Option Bool :=
+  let lowOk : Option Bool := match R.1 with
+    | .minf => some true
+    | .pinf | .none => some false
+    | e => (vivSignPow n x e).map (fun s => s > 0 || (s == 0 && !R.2.1))
+  let upOk : Option Bool := match R.2.2.1 with
+    | .pinf => some true
+    | .minf | .none => some false
+    | e => (vivSignPow n x e).map (fun s => s < 0 || (s == 0 && !R.2.2.2))
+  match lowOk, upOk with
+  | some a, some b => some (a && b)
+  | _, _ => none
+
 /-- exact membership of `x ⊕ y` in the value interval `R`; `none` = undecided (infinite end of a kind not handled, fuel) -/
 def vivMemExact (mul : Bool) (x y : Val) (R : VIv) : Option Bool :=
   let lowOk : Option Bool := match R.1 with
@@ -138,7 +160,9 @@ def checkVIA (op : String) (args res : List String) : Verdict :=
          (s!"{showRat x}{if op = "add" then "+" else "*"}{showRat y}", if op = "add" then x + y else x * y)))
        -- attained end points, irrational ones included: x ⊕ y must lie in the result (exact sign of x ⊕ y − end point)
        let isAlg (v : Val) : Bool := match v with | .alg _ => true | _ => false
-       let exact := (vivAttained A).flatMap (fun x => (vivAttained B).filterMap (fun y =>
+       -- … paired with the attained end points and a few rational sample points of the other operand
+       let cand (I : VIv) : List Val := vivAttained I ++ ((vivSamples I).take 3).map Val.rat
+       let exact := (cand A).flatMap (fun x => (cand B).filterMap (fun y =>
          if isAlg x || isAlg y then some (x, y) else none))
        let lostExact := exact.find? (fun xy => vivMemExact (op = "mul") xy.1 xy.2 R == some false)
        match lost pts R, lostExact with
@@ -151,9 +175,13 @@ def checkVIA (op : String) (args res : List String) : Verdict :=
      | some A, some n, some R =>
        if !vivWf R then .viol "via-pow" s!"ill-formed result {r}" else
        let pts := (vivSamples A).map (fun x => (s!"{showRat x}^{n}", x ^ n))
-       match lost pts R with
-       | some w => .viol "via-pow" s!"lost point {w}: not in the returned interval {r}"
-       | none => .ok s!"via/pow/{n}"
+       let isAlg (v : Val) : Bool := match v with | .alg _ => true | _ => false
+       let ends := (vivAttained A).filter isAlg
+       let lostEnd := ends.find? (fun x => vivMemPow n x R == some false)
+       match lost pts R, lostEnd with
+       | some w, _ => .viol "via-pow" s!"lost point {w}: not in the returned interval {r}"
+       | none, some _ => .viol "via-pow" s!"lost an attained end point: the {n}-th power of an attained irrational end point is not in the returned interval {r}"
+       | none, none => .ok s!"via/pow/{n}{if pts.isEmpty then "/nosample" else ""}{if ends.isEmpty then "" else "/exact-ends"}"
      | _, _, _ => .skip "bad")
   | _, _, _ => .skip s!"unknown via op {op}"
 
